@@ -26,7 +26,7 @@ ASSUMPTIONS = [
 ]
 REQUIRED = ['schedules_run', 'preemptions_inside_window', 'loop_blocked_in_idle_wait', 'foreign_fire_woke_loop', 'rlock_double_instances',
             'event_double_instances', 'mechanism_fallback', 'mechanism_Select', 'mechanism_EPoll', 'timer_present', 'generator_task_present',
-            'two_firers']
+            'two_firers', 'second_manager_idling']
 REQUIRED_OBLIGATIONS = ['NO_LOST_WAKEUP', 'EXACTLY_ONCE', 'THREAD_FIFO', 'LOOP_ENDS_AFTER_STOP']
 WORKER_TIMEOUT = {'quick': 600, 'thorough': 2400}
 ENGINE = 'controlled-scheduler'
@@ -73,6 +73,9 @@ def build(scn, S):
         getattr(pollers, mech)().register(app)
     if scn.get('timer'):
         Timer(1000.0, Event.create('tmr'), persist=True).register(app)
+    if scn.get('second_manager'):
+        # a second, independent manager idling in the same process: its idle machinery must not interfere with the first one's
+        st['app2'] = BaseComponent()
     return app, st
 
 
@@ -120,6 +123,8 @@ def run_schedule(scn, plan=(), seed=None, switch_prob=0.0, record=False):
     def stopper():
         S.block(('cond', all_done), 'stopper-wait')
         st['done'] = True
+        if 'app2' in st:
+            st['app2'].stop()
         st['fired']['stop'] = 'called'
         app.stop()
         st['fired']['stop'] = 'returned'
@@ -135,6 +140,8 @@ def run_schedule(scn, plan=(), seed=None, switch_prob=0.0, record=False):
 
     S.on_block = on_block
     S.spawn('L', loop)
+    if 'app2' in st:
+        S.spawn('L2', lambda: st['app2'].run())
     for i in range(nf):
         S.spawn('F%d' % i, firer(i))
     S.spawn('S', stopper)
@@ -197,7 +204,8 @@ def scenarios(tier):
     if tier == 'quick':
         return [{'mech': 'fallback', 'firers': 1, 'events': 1}, {'mech': 'fallback', 'firers': 1, 'events': 2, 'timer': True},
                 {'mech': 'fallback', 'firers': 1, 'events': 1, 'task': True}, {'mech': 'fallback', 'firers': 2, 'events': 2},
-                {'mech': 'Select', 'firers': 1, 'events': 1}, {'mech': 'EPoll', 'firers': 1, 'events': 2, 'timer': True}]
+                {'mech': 'Select', 'firers': 1, 'events': 1}, {'mech': 'EPoll', 'firers': 1, 'events': 2, 'timer': True},
+                {'mech': 'fallback', 'firers': 1, 'events': 1, 'second_manager': True}]
     out = []
     for mech in ['fallback', 'Select', 'Poll', 'EPoll']:
         out.append({'mech': mech, 'firers': 1, 'events': 1})
@@ -205,6 +213,7 @@ def scenarios(tier):
         out.append({'mech': mech, 'firers': 1, 'events': 1, 'task': True})
         out.append({'mech': mech, 'firers': 2, 'events': 2})
         out.append({'mech': mech, 'firers': 2, 'events': 3, 'timer': True, 'task': True})
+        out.append({'mech': mech, 'firers': 1, 'events': 2, 'second_manager': True})
     return out
 
 
@@ -262,6 +271,8 @@ def explore(b, scn, plans_iter, S, in_window):
             b.reached('generator_task_present')
         if scn['firers'] >= 2:
             b.reached('two_firers')
+        if scn.get('second_manager'):
+            b.reached('second_manager_idling')
         b.reached('virtual_timeouts', res['virtual_timeouts'])
         if not res['stop_dispatched_when_run_returned']:
             b.reached('observed_run_returned_before_stopped_dispatched_after_foreign_stop')
@@ -397,6 +408,8 @@ def run_batch(spec):
                     pl = [('L', p), ('F0', bu)]
                     if scn['firers'] > 1:
                         pl.append(('F1', bu))
+                    if scn.get('second_manager'):
+                        pl.append(('L2', INF))   # the other manager goes through its own idle approach in between
                     pl.append(('L', INF))
                     yield None, pl, {}
         explore(b, scn, plans(), S, in_window)
